@@ -80,6 +80,9 @@ func c07Ops() []c07Op {
 		{name: "nestedLoopCall", prog: mustC(`map(A, {count(A, {Scale(#) > 2})})`, expr.Env(c07Env{}), noopt), env: se(2, 1)},
 		{name: "deepStackOverBudget", prog: mustC(`filter(Big, {true})`, expr.Env(c07Env{}), noopt), env: c07Env{N: 1, Z: 1, A: []int{1}, Big: make([]int, 1500)}},
 		{name: "deepStackNoAllocation", prog: mustC(`count(Big, {true}) + len(Big)`, expr.Env(c07Env{}), noopt), env: c07Env{N: 1, Z: 1, A: []int{1}, Big: make([]int, 3000)}},
+		{name: "noEnvProgOnMap", prog: mustC(`N + Z`), env: map[string]interface{}{"N": 40, "Z": 2}},
+		{name: "noEnvProgOnStruct", prog: mustC(`N + Z`), env: se(2, 1)},
+		{name: "noEnvProgOnTypedMap", prog: mustC(`N + Z`), env: map[string]int{"N": 7, "Z": 7}},
 		{name: "budget5", budget: 5},
 		{name: "budget10", budget: 10},
 	}
